@@ -131,6 +131,9 @@ type c20Task struct {
 	rows  []*row
 	forms []*F
 	from  int // offset of forms in the resource's formula list
+	// feature-configuration dimension only: the rows as they would be with the other
+	// metadata source (history as of the PIT <-> current metadata) for this resource
+	altRows []*row
 }
 
 type c20Stats struct {
@@ -141,7 +144,18 @@ type c20Stats struct {
 	memo        sync.Map // resource|history|variant|formulaKey -> verdict
 	minimised   atomic.Int64
 	evaluations atomic.Int64
-	counted     sync.Map // resource -> *atomic.Int64: Count* calls compared with a listing
+	counted     sync.Map             // resource -> *atomic.Int64: Count* calls compared with a listing
+	perCfg      map[string]*cfgStats // resource|configuration
+}
+
+// cfgStats describes what a non-default feature configuration exercised for a resource.
+type cfgStats struct {
+	Evaluations int64 `json:"evaluations"`
+	// evaluations (resp. evaluations of a single metadata atom) whose expected result
+	// differs from what the other metadata source (history as of the PIT <-> current
+	// metadata) would select: only these can tell a wrong source from the right one
+	Discriminating     int64 `json:"source_discriminating_evaluations"`
+	DiscriminatingAtom int64 `json:"source_discriminating_single_atom_evaluations"`
 }
 
 type resStats struct {
@@ -153,6 +167,9 @@ type resStats struct {
 	Failing      int64          `json:"failing_evaluations"`
 	Counted      int64          `json:"count_calls_compared"`
 	AtomKinds    int            `json:"atom_kinds"`
+	// point-in-time variants × formulas mentioning a metadata atom, per non-default
+	// feature configuration
+	ByConfig map[string]*cfgStats `json:"metadata_at_pit_by_feature_configuration,omitempty"`
 }
 
 var digitsRe = regexp.MustCompile(`[0-9]+`)
@@ -180,6 +197,7 @@ func closure(f *F) map[string]*F {
 type c20Run struct {
 	r        *ev.Run
 	built    []*Built
+	defIdx   map[string]int // history name -> index in built of its default-configuration build
 	thorough bool
 	st       *c20Stats
 	samples  *ev.Samples
@@ -197,7 +215,7 @@ func filterObj(f *F) any {
 // memoEval evaluates f under variant v on the task's history, remembering the verdict:
 // minimisation re-visits the same small formulas from many starting points.
 func (c *c20Run) memoEval(ctx context.Context, s *site, res *resource, v variant, rows []*row, f *F) verdict {
-	key := res.Name + "|" + s.B.H.Name + "|" + v.Name + "|" + f.Key()
+	key := res.Name + "|" + s.B.Label() + "|" + v.Name + "|" + f.Key()
 	if x, ok := c.st.memo.Load(key); ok {
 		return x.(verdict)
 	}
@@ -222,7 +240,16 @@ func (c *c20Run) memoEval(ctx context.Context, s *site, res *resource, v variant
 // picks the simplest variant on which that one fails, and records the violation under a
 // structural signature. Everything here is a deterministic function of the failing
 // (history, variant, formula), so the set of signatures does not depend on scheduling.
-func (c *c20Run) report(ctx context.Context, s *site, t *c20Task, f *F, vd verdict) {
+//
+// A failure seen on a non-default feature configuration is re-evaluated on the default
+// configuration of the same history: when it fails there too the configuration is not
+// part of the failure's structure and the signature is the one the default configuration
+// gives; otherwise the signature names the configuration.
+func (c *c20Run) report(ctx context.Context, siteOf func(int) *site, t *c20Task, f *F, vd verdict) {
+	s := siteOf(t.hi)
+	if s == nil {
+		return
+	}
 	st := c.st
 	st.mu.Lock()
 	st.perRes[t.res.Name].Failing++
@@ -264,27 +291,48 @@ func (c *c20Run) report(ctx context.Context, s *site, t *c20Task, f *F, vd verdi
 		if cand.Name == t.v.Name {
 			break
 		}
+		cand = s.B.under(cand)
 		rv := c.memoEval(ctx, s, t.res, cand, t.res.rows(s.B.Ref, cand), min)
 		if rv.bad() && rv.Kind != "engine" {
 			v, vvd = cand, rv
 			break
 		}
 	}
+	if s.B.Cfg != nil {
+		if ds := siteOf(c.defIdx[s.B.H.Name]); ds != nil {
+			dv := ds.B.under(v)
+			rv := c.memoEval(ctx, ds, t.res, dv, t.res.rows(ds.B.Ref, dv), min)
+			if rv.bad() && rv.Kind != "engine" {
+				s, v, vvd = ds, dv, rv
+			}
+		}
+	}
 	sig := "C20:" + t.res.Name
 	if vc := variantClass(v.Name); vc != "cur" {
 		sig += ":" + vc
+	}
+	if l := s.B.Cfg.Label(); l != "" {
+		sig += ":" + l
 	}
 	sig += ":" + min.Shape()
 	if vvd.Kind != "list" {
 		sig += ":" + vvd.Kind
 	}
-	what := fmt.Sprintf("%s history=%s variant=%s filter=%s: %s; expected %v, listed %v", t.res.Name, s.B.H.Name, v.Name, min.JSON(), vvd.Detail, vvd.Want, vvd.Got)
+	what := fmt.Sprintf("%s history=%s variant=%s filter=%s: %s; expected %v, listed %v", t.res.Name, s.B.Label(), v.Name, min.JSON(), vvd.Detail, vvd.Want, vvd.Got)
+	if s.B.Cfg != nil && v.PIT != nil && t.res.metaOwner != "" {
+		src := "the metadata as of the point in time (its metadata-history feature is SYNC)"
+		if (t.res.metaOwner == "tx" && v.txCur) || (t.res.metaOwner == "acc" && v.accCur) {
+			src = "the current metadata (its metadata-history feature is DISABLED: no history is kept)"
+		}
+		what += "; on this ledger a point-in-time query on " + t.res.Name + " sees " + src
+	}
 	if min != f {
 		what += fmt.Sprintf(" (minimised from %s)", f.JSON())
 	}
 	c.r.Violation(sig, what, map[string]any{
 		"resource": t.res.Name,
 		"history":  s.B.H,
+		"features": s.B.Cfg.features(),
 		"variant":  v,
 		"filter":   filterObj(min),
 		"expected": vvd.Want,
@@ -316,6 +364,61 @@ func dedupe(fs []*F) []*F {
 	return out
 }
 
+// mentionsMetadata: does the formula contain a metadata atom?
+func mentionsMetadata(f *F) bool {
+	if f.Op == "atom" {
+		return strings.HasPrefix(f.A.Field, "metadata")
+	}
+	for _, k := range f.Kids {
+		if mentionsMetadata(k) {
+			return true
+		}
+	}
+	return false
+}
+
+func onlyMetadata(fs []*F) []*F {
+	var out []*F
+	for _, f := range fs {
+		if mentionsMetadata(f) {
+			out = append(out, f)
+		}
+	}
+	return out
+}
+
+// cfgFormulas is the formula space of a non-default feature configuration: the formulas
+// of the default space that mention a metadata atom (nothing else in a query depends on
+// the metadata-history features). Quick: every a, ¬a, a∧b, a∨b with a metadata atom a
+// and any atom b of the full set; thorough: the deeper families too.
+func (c *c20Run) cfgFormulas(as atomSet) []*F {
+	if c.thorough {
+		return onlyMetadata(c.formulas(as))
+	}
+	return onlyMetadata(dedupe(depth2(as.all)))
+}
+
+// extraConfigs: the metadata-history feature configurations besides the default one
+// (both SYNC). The two mixed ones tell the two features apart; both DISABLED (thorough)
+// completes the square.
+func extraConfigs(thorough bool) []*FeatCfg {
+	cs := []*FeatCfg{metaHistCfg(true, false), metaHistCfg(false, true)}
+	if thorough {
+		cs = append(cs, metaHistCfg(false, false))
+	}
+	return cs
+}
+
+// flipSource returns v with the other metadata source for the resource's own metadata.
+func flipSource(res *resource, v variant) variant {
+	if res.metaOwner == "tx" {
+		v.txCur = !v.txCur
+	} else {
+		v.accCur = !v.accCur
+	}
+	return v
+}
+
 func runC20() int {
 	r := ev.Start("C20", ev.LevelExploration, 150*time.Second, 25*time.Minute)
 	ctx := context.Background()
@@ -324,16 +427,48 @@ func runC20() int {
 		r.EngineError(err.Error())
 		return r.Finish(nil, []string{pgsimAssumption})
 	}
-	c := &c20Run{r: r, built: built, thorough: r.Thorough(), samples: ev.NewSamples(8),
-		st: &c20Stats{nontrivial: map[string]bool{}, formulas: map[string]bool{}, perRes: map[string]*resStats{}}}
+	nDefault := len(built)
+	cfgs := extraConfigs(r.Thorough())
+	for _, cfg := range cfgs {
+		bs, err := buildCfg(ctx, histories(), cfg)
+		if err != nil {
+			r.EngineError(cfg.Name + ": " + err.Error())
+			return r.Finish(nil, []string{pgsimAssumption})
+		}
+		built = append(built, bs...)
+	}
+	c := &c20Run{r: r, built: built, defIdx: map[string]int{}, thorough: r.Thorough(), samples: ev.NewSamples(8),
+		st: &c20Stats{nontrivial: map[string]bool{}, formulas: map[string]bool{}, perRes: map[string]*resStats{}, perCfg: map[string]*cfgStats{}}}
+	for i, b := range built[:nDefault] {
+		c.defIdx[b.H.Name] = i
+	}
 	const chunk = 40
 	var tasks []*c20Task
 	variantNames := map[string][]string{}
+	cfgVariantNames := map[string][]string{}
+	cfgFormulaCount := map[string]int{}
 	for _, res := range allResources {
 		c.st.perRes[res.Name] = &resStats{NonTrivialBy: map[string]int{}}
 		for hi, b := range built {
 			as := res.atoms(b)
-			fs := c.formulas(as)
+			var fs []*F
+			if b.Cfg == nil {
+				fs = c.formulas(as)
+			} else {
+				if res.metaOwner == "" {
+					continue // no metadata, no point in time: nothing depends on the features
+				}
+				fs = c.cfgFormulas(as)
+				cfgFormulaCount[res.Name] = len(fs)
+				if c.st.perCfg[res.Name+"|"+b.Cfg.Name] == nil {
+					cs := &cfgStats{}
+					c.st.perCfg[res.Name+"|"+b.Cfg.Name] = cs
+					if c.st.perRes[res.Name].ByConfig == nil {
+						c.st.perRes[res.Name].ByConfig = map[string]*cfgStats{}
+					}
+					c.st.perRes[res.Name].ByConfig[b.Cfg.Name] = cs
+				}
+			}
 			if hi == 0 {
 				c.st.perRes[res.Name].Atoms = len(as.all)
 				c.st.perRes[res.Name].Formulas = len(fs)
@@ -342,13 +477,24 @@ func runC20() int {
 				if hi == 0 {
 					variantNames[res.Name] = append(variantNames[res.Name], v.Name)
 				}
+				if b.Cfg != nil && v.PIT == nil {
+					continue // the current state does not depend on the metadata-history features
+				}
+				if hi == nDefault {
+					cfgVariantNames[res.Name] = append(cfgVariantNames[res.Name], v.Name)
+				}
+				v = b.under(v)
 				rows := res.rows(b.Ref, v)
+				var altRows []*row
+				if b.Cfg != nil {
+					altRows = res.rows(b.Ref, flipSource(res, v))
+				}
 				for from := 0; from < len(fs); from += chunk {
 					to := from + chunk
 					if to > len(fs) {
 						to = len(fs)
 					}
-					tasks = append(tasks, &c20Task{res: res, hi: hi, v: v, rows: rows, forms: fs[from:to], from: from})
+					tasks = append(tasks, &c20Task{res: res, hi: hi, v: v, rows: rows, altRows: altRows, forms: fs[from:to], from: from})
 				}
 			}
 		}
@@ -357,6 +503,8 @@ func runC20() int {
 	// then the deeper families): run the n-th chunk of every (resource, history, variant)
 	// before any (n+1)-th chunk, so that a run cut short by the time budget has still seen
 	// every resource and variant with the formulas that discriminate most per evaluation.
+	// (The non-default feature configurations enumerate only formulas with a metadata
+	// atom, so their first chunk holds every single metadata atom and its negation.)
 	sort.SliceStable(tasks, func(i, j int) bool { return tasks[i].from < tasks[j].from })
 	var next atomic.Int64
 	var stopped atomic.Bool
@@ -371,12 +519,26 @@ func runC20() int {
 					s.close()
 				}
 			}()
+			siteOf := func(hi int) *site {
+				s := sites[hi]
+				if s == nil {
+					var err error
+					s, err = built[hi].open(ctx)
+					if err != nil {
+						r.EngineError("open site: " + err.Error())
+						return nil
+					}
+					sites[hi] = s
+				}
+				return s
+			}
 			const recycle = 60
 			done := 0
 			localNT := map[string]bool{}
 			localAll := map[string]bool{}
 			localEval := map[string]int64{}
 			localNTV := map[string]int{}
+			localCfg := map[string]*cfgStats{}
 			defer func() {
 				c.st.mu.Lock()
 				for k := range localNT {
@@ -391,6 +553,12 @@ func runC20() int {
 				for k, n := range localNTV {
 					i := strings.Index(k, "|")
 					c.st.perRes[k[:i]].NonTrivialBy[k[i+1:]] += n
+				}
+				for k, n := range localCfg {
+					cs := c.st.perCfg[k]
+					cs.Evaluations += n.Evaluations
+					cs.Discriminating += n.Discriminating
+					cs.DiscriminatingAtom += n.DiscriminatingAtom
 				}
 				c.st.mu.Unlock()
 			}()
@@ -412,15 +580,17 @@ func runC20() int {
 						delete(sites, k)
 					}
 				}
-				s := sites[t.hi]
+				s := siteOf(t.hi)
 				if s == nil {
-					var err error
-					s, err = built[t.hi].open(ctx)
-					if err != nil {
-						r.EngineError("open site: " + err.Error())
-						return
+					return
+				}
+				var lc *cfgStats
+				if s.B.Cfg != nil {
+					k := t.res.Name + "|" + s.B.Cfg.Name
+					if lc = localCfg[k]; lc == nil {
+						lc = &cfgStats{}
+						localCfg[k] = lc
 					}
-					sites[t.hi] = s
 				}
 				for _, f := range t.forms {
 					vd := c.memoEval(ctx, s, t.res, t.v, t.rows, f)
@@ -431,14 +601,25 @@ func runC20() int {
 						localNT[key] = true
 						localNTV[t.res.Name+"|"+variantClass(t.v.Name)]++
 					}
+					if lc != nil {
+						lc.Evaluations++
+						want := t.res.entities(selectRows(t.rows, f, t.res.atom), t.v)
+						other := t.res.entities(selectRows(t.altRows, f, t.res.atom), t.v)
+						if !equalStrings(want, other) {
+							lc.Discriminating++
+							if f.isAtom() {
+								lc.DiscriminatingAtom++
+							}
+						}
+					}
 					if vd.Kind == "engine" {
-						r.EngineError(fmt.Sprintf("%s history=%s variant=%s filter=%s: %s", t.res.Name, s.B.H.Name, t.v.Name, f.JSON(), vd.Detail))
+						r.EngineError(fmt.Sprintf("%s history=%s variant=%s filter=%s: %s", t.res.Name, s.B.Label(), t.v.Name, f.JSON(), vd.Detail))
 						return
 					}
 					if vd.bad() {
-						c.report(ctx, s, t, f, vd)
+						c.report(ctx, siteOf, t, f, vd)
 					} else if vd.nonTrivial && f.size() >= 3 {
-						c.samples.Add(map[string]any{"resource": t.res.Name, "history": s.B.H.Name, "variant": t.v.Name, "filter": filterObj(f), "selected": vd.Got})
+						c.samples.Add(map[string]any{"resource": t.res.Name, "history": s.B.Label(), "variant": t.v.Name, "filter": filterObj(f), "selected": vd.Got})
 					}
 				}
 			}
@@ -490,23 +671,55 @@ func runC20() int {
 			if res.count != nil && ps.Counted == 0 {
 				r.EngineError(fmt.Sprintf("vacuous: Count%s was never compared with a listing", res.Name))
 			}
+			// the feature-configuration dimension: on every non-default configuration a
+			// single metadata atom at a point in time must have been expected to select
+			// something else than it would with the other metadata source (history as of
+			// the PIT <-> current metadata); otherwise no metadata write follows the
+			// points in time used and the configuration cannot tell the sources apart
+			if res.metaOwner != "" {
+				for _, cfg := range cfgs {
+					cs := st.perCfg[res.Name+"|"+cfg.Name]
+					switch {
+					case cs == nil || cs.Evaluations == 0:
+						r.EngineError(fmt.Sprintf("vacuous: %s never queried at a point in time with a metadata filter on a ledger with %s", res.Name, cfg.Name))
+					case cs.DiscriminatingAtom == 0:
+						r.EngineError(fmt.Sprintf("vacuous: on the ledgers with %s no single metadata atom on %s at a point in time selects different sets with the metadata as of the PIT and with the current metadata", cfg.Name, res.Name))
+					}
+				}
+			}
 		}
 	}
 	var hs []any
 	for _, b := range built {
-		hs = append(hs, map[string]any{"name": b.H.Name, "ops": len(b.H.Ops), "transactions": len(b.Ref.Txs), "accounts": len(b.Ref.Accs), "logs": len(b.Ref.Logs), "pits": b.PITs})
+		h := map[string]any{"name": b.H.Name, "ops": len(b.H.Ops), "transactions": len(b.Ref.Txs), "accounts": len(b.Ref.Accs), "logs": len(b.Ref.Logs), "pits": b.PITs}
+		if b.Cfg != nil {
+			h["features"] = b.Cfg.Features
+		}
+		hs = append(hs, h)
 	}
-	rule := "fixed histories (back-dated/future/tied timestamps, reverts, metadata added/overwritten/deleted on accounts and transactions, 1–3 segment addresses, 3 assets, zero/negative balances, metadata-only accounts) built through the real controller on pgsim × per resource EVERY formula a, ¬a, a∧b, a∨b over the full atom set (every supported field×operator of the property statement with 1–3 values: exact/partial/prefix addresses, $in, metadata match/$exists/$in, balance[asset] and balance comparisons, dates, reverted, reference, id, log type) plus the families ¬(a∨b), a∧(b∨c), a∨(b∧¬c), ¬(a∧¬b) over a reduced 10-atom set"
+	var cfgNames []string
+	for _, cfg := range cfgs {
+		cfgNames = append(cfgNames, cfg.Name)
+	}
+	rule := "fixed histories (back-dated/future/tied timestamps, reverts, metadata added/overwritten/deleted on accounts and transactions — also after the points in time used —, 1–3 segment addresses, 3 assets, zero/negative balances, metadata-only accounts) built through the real controller on pgsim × per resource EVERY formula a, ¬a, a∧b, a∨b over the full atom set (every supported field×operator of the property statement with 1–3 values: exact/partial/prefix addresses, $in, metadata match/$exists/$in, balance[asset] and balance comparisons, dates, reverted, reference, id, log type) plus the families ¬(a∨b), a∧(b∨c), a∨(b∧¬c), ¬(a∧¬b) over a reduced 10-atom set"
 	if c.thorough {
 		rule += " plus EVERY formula of depth 3 (¬f, f∧g, f∨g with f, g of depth ≤ 2) over an 8-atom set"
 	}
-	rule += " × current state and points in time (effective and insertion date, volumes grouped by 0..2 segments); List* must equal the entities selected by an independent Go evaluator over the reference ledger ($not = set complement), Count* must equal the number of listed entities. $like and the undocumented `updated_at` field are outside the property statement and not enumerated"
+	rule += " × current state and points in time (effective and insertion date, volumes grouped by 0..2 segments) on a ledger with the default feature set; List* must equal the entities selected by an independent Go evaluator over the reference ledger ($not = set complement), Count* must equal the number of listed entities. "
+	rule += fmt.Sprintf("Feature-configuration dimension: the same histories on ledgers created with %s × transactions, accounts, volumes, aggregated balances × every point-in-time variant × EVERY formula of the space above that mentions a metadata atom", strings.Join(cfgNames, " / "))
+	if !c.thorough {
+		rule += " up to a, ¬a, a∧b, a∨b (b any atom of the full set)"
+	}
+	rule += "; there the reference reads the metadata as of the PIT when the resource's own metadata-history feature (TRANSACTION_METADATA_HISTORY for transactions, ACCOUNT_METADATA_HISTORY for accounts, volumes, aggregated balances) is SYNC and the current metadata when it is DISABLED. $like and the undocumented `updated_at` field are outside the property statement and not enumerated"
 	return r.Finish(ev.Coverage{
 		"evaluations":                          st.evaluations.Load(),
 		"distinct_formulas":                    len(st.formulas),
 		"distinct_nontrivial":                  nt,
 		"per_resource":                         st.perRes,
 		"variants":                             variantNames,
+		"feature_configurations":               cfgNames,
+		"feature_configuration_variants":       cfgVariantNames,
+		"feature_configuration_formulas":       cfgFormulaCount,
 		"histories":                            hs,
 		"failing_minimised_to_smaller_formula": st.minimised.Load(),
 		"rule":                                 rule,
@@ -515,7 +728,8 @@ func runC20() int {
 	}, []string{pgsimAssumption,
 		"address pattern `a:...` is read as «a at position 0 with any number of segments» (the wording of /repo/internal/storage/ledger/utils_test.go), i.e. it also selects the bare account `a`",
 		"balance[ASSET] on accounts is read as «the account has a balance in ASSET and it compares as stated»; an account that never moved ASSET is selected only through $not",
-		"all histories use the default feature set (MOVES_HISTORY=ON, effective volumes SYNC, metadata histories SYNC)"})
+		"all histories keep MOVES_HISTORY=ON and effective volumes SYNC; of the features only the two metadata-history ones vary (both SYNC for the full space; the mixed combinations, and both DISABLED at the thorough tier, for point-in-time queries with a metadata filter)",
+		"a point-in-time query on a ledger whose metadata-history feature for the resource is DISABLED is read as «filters see the current metadata» (what internal/storage/ledger/resource_accounts.go, resource_transactions.go and resource_aggregated_balances.go spell out, and what property C17 checks on unfiltered listings)"})
 }
 
 // workers is the degree of parallelism (PQ_WORKERS overrides, for experiments).
